@@ -114,6 +114,22 @@ reg("C38", Spec(
     shards=(1, 1), floor=(1000, 4)))
 
 
+reg("C08", Spec(
+    "enumcheck", "exploration",
+    "Every submessage kind is built through its public constructor over a field lattice (sequence numbers 1, 2^31-1, 2^31, 2^32, "
+    "2^32+1, 2^63-300, 0, -1; set bases x member sets {empty, {base}, {base+255}, all 256, mixed, every single bit of 12 positions}; "
+    "counts {0,1,-1,MAX,MIN}; all flag combinations; inline QoS {none, key hash, status info, both, unknown PID}; payload sizes "
+    "0..5, 8, 1344, 65000, 65499..65536, 70000 (all of 65502..65540 and 200000 in thorough); DATA_FRAG shapes with fragment sizes 8..65000), "
+    "plus all messages of 2 and 3 submessages over 9 kinds in every order. Each message is encoded with RtpsMessageWrite, every "
+    "octetsToNextHeader is checked against the real layout by an independent walker, and RtpsMessageRead::try_from must return "
+    "the same header and submessage list.",
+    "Trusted: the Debug/accessor rendering used to compare submessages; the independent header walker.",
+    "bounded-exhaustive input-lattice enumeration with a round-trip oracle",
+    "DESIGN.md §4 C08",
+    "product lattice described in level text; a case is distinct per (submessage class, outcome)",
+    ["big-endian decoding is covered by C07's byte-swapped seeds, not here", "payload content is a fixed position-dependent pattern"],
+    floor=(3000, 20)))
+
 reg("C14", Spec(
     "enumcheck", "exploration",
     "Literally exhaustive: every nanosecond value 0..10^9 (with seconds 0,1,2; a 1024-stride for six further boundary seconds) and "
